@@ -127,6 +127,10 @@ def lookup_steps(root, s, namer, rng, paths, meta=None):
         for api in ('find_path_entry', 'verify_path', 'assert_path_verifies'):
             obs, ld = gem.call(gem.loader, top)
             ret, res = True, []
+            if obs['end'] == 'ok' and rng.random() < 0.3:
+                # the TIMESTAMP is looked up first on the same loader (as `gemato verify` does): whatever
+                # that loads must have been checked like everything else
+                obs, _ = gem.call(ld.find_timestamp)
             if obs['end'] == 'ok':
                 obs, r = gem.call(getattr(ld, api), path)
                 if obs['end'] == 'ok':
@@ -538,6 +542,12 @@ def one_tamper(args):
             for lvl in range(j, max(k, 0) - 1, -1):
                 for m in L.mf:
                     if L.mdir(m) == dirs[lvl] and (lvl >= 1 or k == 0):
+                        only.add(m)
+            if k == 1 and rng.random() < 0.5:
+                # ... and the Manifests that share the top-level Manifest's directory (Manifest.extra there):
+                # everything but the top-level Manifest itself is the attacker's
+                for m in L.mf:
+                    if L.mdir(m) == '' and m != 'Manifest':
                         only.add(m)
             # freeze the MANIFEST entries of untouched levels
             L.write_manifests(root, only=only)
